@@ -391,9 +391,13 @@ where
         A: GLWEInfos,
         B: BDDKeyInfos,
     {
+        // Each piece is taken separately (every take is re-aligned) and the per-thread windows of the
+        // multi-threaded form are carved back to back: count every piece as a whole number of aligned blocks.
+        let align: usize = poulpy_hal::DEFAULTALIGN;
         self.circuit_bootstrapping_execute_tmp_bytes(block_size, extension_factor, res_infos, &bdd_infos.cbt_infos())
-            + GGSW::bytes_of_from_infos(res_infos)
-            + LWE::bytes_of_from_infos(bits_infos)
+            .next_multiple_of(align)
+            + GGSW::bytes_of_from_infos(res_infos).next_multiple_of(align)
+            + LWE::bytes_of_from_infos(bits_infos).next_multiple_of(align)
     }
 
     fn fhe_uint_prepare_custom_multi_thread<DM, DB, DK, K, T: UnsignedInteger>(
